@@ -62,6 +62,12 @@ def install(scripted):
                         _SAVED.append((mod, attr, val))
                     setattr(mod, attr, meth)
                     names.append(f"{modname}.{attr}")
+    # code that looks the function up at call time (import random; random.choice(...)) goes through the module
+    for fname in ("choice", "choices", "randint", "randrange", "shuffle", "sample", "random", "uniform"):
+        cur = getattr(random, fname, None)
+        if getattr(cur, "__self__", None) is hidden:
+            _SAVED.append((random, fname, cur))
+            setattr(random, fname, getattr(scripted, fname))
     return sorted(set(names))
 
 
